@@ -17,7 +17,7 @@ RULE = ("(tree with links, expression before -delete) cases; the expression is a
         "are sometimes non-empty (removal fails); non-trivial = distinct case in which at least one entry is matched and at least one is not")
 ASSUMPTIONS = [
     "unlink/rmdir behave as POSIX says (rmdir fails on a non-empty directory); readdir during removal is made irrelevant by -sorted (listing collected first)",
-    "follow mode -P; under -L the walk enters link targets and removing there is 'matched entries', which the decoy check cannot tell apart",
+    "follow modes -P and -H (starting point a real directory); under -L the walk enters link targets and removing there is 'matched entries', which the decoy check cannot tell apart",
 ]
 
 
@@ -77,12 +77,14 @@ def run(ctx):
             else:
                 expr = ["-mindepth", "1"]
                 match = lambda p, s: bool(p)
-            cases.append((nm, b"w%d" % k, spec, expr, match, kind))
+            cases.append((nm, b"w%d" % k, spec, expr, match, kind, rng.choice([[], [], [b"-P"], [b"-H"], [b"-H"]])))
         before_out = snapshot(os.path.join(forest.dir, b"outside"))
         il, il2 = [], []
-        for nm, twin, spec, expr, match, kind in cases:
-            il.append("find - %s %s" % (fw.hexs(forest.dir), xc.hexlist([nm, b"-sorted"] + [e.encode() for e in expr] + [b"-print0", b"-delete"])))
+        for nm, twin, spec, expr, match, kind, fl in cases:
+            # -H with a starting point that is a real directory: links below it are not followed, exactly as under -P
+            il.append("find - %s %s" % (fw.hexs(forest.dir), xc.hexlist(fl + [nm, b"-sorted"] + [e.encode() for e in expr] + [b"-print0", b"-delete"])))
             il2.append("find - %s %s" % (fw.hexs(forest.dir), xc.hexlist([twin, b"-depth", b"-sorted"] + [e.encode() for e in expr] + [b"-print0"])))
+        cases = [c[:6] for c in cases]
         before = {nm: snapshot(os.path.join(forest.dir, nm)) for nm, *_ in cases}
         impl = xc.run_impl(il)
         impl2 = xc.run_impl(il2)
